@@ -764,7 +764,6 @@ are in the format's ranges (non-zero charge within ±15, radical 1–3, mass > 0
 theorem atomLine_roundtrip (n : Node) (sym : Str) (hsym : n.attrs.sym = some sym) (hel : sym ∈ elementSyms)
     (hx : ∀ t ∈ [n.attrs.x.getD zeroCoord, n.attrs.y.getD zeroCoord, n.attrs.zc.getD zeroCoord],
       IsToken t ∧ pyFloatOk t = true)
-    (hid : (natRepr (n.id + 1)).length ≤ intMaxStrDigits)
     (hchg : ∀ c, n.attrs.chg = some c → c ≠ 0 ∧ -15 ≤ c ∧ c ≤ 15)
     (hrad : ∀ r, n.attrs.rad = some r → 0 < r ∧ r ≤ 3)
     (hmass : ∀ m, n.attrs.mass = some m → 0 < m ∧ (intRepr m).length ≤ intMaxStrDigits) :
@@ -775,7 +774,6 @@ theorem atomLine_roundtrip (n : Node) (sym : Str) (hsym : n.attrs.sym = some sym
                     x := some (n.attrs.x.getD zeroCoord), y := some (n.attrs.y.getD zeroCoord),
                     zc := some (n.attrs.zc.getD zeroCoord),
                     chg := n.attrs.chg, rad := n.attrs.rad, mass := n.attrs.mass }) := by
-  have _ := hid
   obtain ⟨z, hz, _, _⟩ := atomicNumberOf_elementSyms sym hel
   -- abbreviations
   generalize hX : n.attrs.x.getD zeroCoord = X at hx ⊢
